@@ -415,6 +415,32 @@ def r11b_exit_status(ctx):
     # both formats iterate the same vector
     loops = [bb for bb, c in f.calls() if c.get("fn") in ("std::iter::IntoIterator::into_iter", "std::iter::Iterator::map") and _root(f, c["args"][0]) == v]
     iters = [bb for bb, c in f.calls() if re.search(r"::(iter|into_iter)$", c.get("res") or "") and c["args"] and _root(f, c["args"][0]) == v]
+    # text format: every element of the list is printed (no iteration can skip the print)
+    for bb, c in f.calls():
+        if c.get("fn") == "std::iter::Iterator::next" and c["span"][4].startswith("desugar:ForLoop"):
+            from .r4 import _iter_source_local, loop_body
+            if _iter_source_local(f, c["args"][0]) != v:
+                continue
+            body, some_bb = loop_body(f, bb)
+            prints = {b2 for b2 in body if f.blocks[b2]["t"][0] == "call" and (f.blocks[b2]["t"][1].get("res") or "").endswith("::_print")}
+            # can the header be reached again from the body entry without passing a print?
+            seen, st, skipped = {some_bb}, [some_bb], False
+            while st:
+                x = st.pop()
+                if x in prints:
+                    continue
+                for s2 in f.succs(x):
+                    if s2 == bb:
+                        skipped = True
+                    elif s2 in body and s2 not in seen:
+                        seen.add(s2)
+                        st.append(s2)
+            key = "R11b|text loop can skip an entry"
+            if prints and not skipped:
+                r.ok(sample={"text_loop": "every element printed"})
+            else:
+                r.violate(key, "the text-format loop over the unused list at %s can continue without printing an element: text and "
+                               "json outputs list different entries" % ctx.bin.span_str(c["span"]))
     r.counts["iterations_of_unused"] = len(set(loops) | set(iters))
     r.floor("iterations over the unused list (one per output format)", len(set(loops) | set(iters)), 2)
     return r
